@@ -3,10 +3,12 @@ package gossipval
 import (
 	"crypto/sha256"
 	"fmt"
+	"strings"
 
 	pubsub "github.com/libp2p/go-libp2p-pubsub"
 	pb "github.com/libp2p/go-libp2p-pubsub/pb"
 	"github.com/libp2p/go-libp2p/core/peer"
+	"google.golang.org/protobuf/encoding/protowire"
 	"google.golang.org/protobuf/proto"
 	"google.golang.org/protobuf/types/known/anypb"
 
@@ -256,9 +258,50 @@ func (w *World) BuildProto(cc *Concrete) p2pmsg.Message {
 	return out
 }
 
+// VersionString concretises an envelope version class of GossipCrash.tla.
+func VersionString(class string) string {
+	switch class {
+	case "", "ok":
+		return p2pmsg.EnvelopeVersion
+	case "empty":
+		return ""
+	case "t1":
+		return "0"
+	case "t2":
+		return "0."
+	case "t3":
+		return "0.0"
+	case "t4":
+		return "0.0."
+	case "one":
+		return "1"
+	case "dot0":
+		return ".0"
+	case "patch":
+		return "0.0.2"
+	case "minor":
+		return "0.1.1"
+	case "longer":
+		return "0.0.1.0"
+	case "long":
+		return strings.Repeat("0.", 32*1024)
+	case "nonascii":
+		return "\uff10.\uff10.\uff11\x00\xff" // fullwidth digits, NUL, invalid UTF-8
+	}
+	panic("unknown version class " + class)
+}
+
 // Envelope marshals the message into envelope bytes (with a wrong version if asked).
 func Envelope(msg p2pmsg.Message, versionOk bool) []byte {
 	if versionOk {
+		return EnvelopeVersioned(msg, p2pmsg.EnvelopeVersion)
+	}
+	return EnvelopeVersioned(msg, badVersion)
+}
+
+// EnvelopeVersioned marshals the message into an envelope with the given version string.
+func EnvelopeVersioned(msg p2pmsg.Message, version string) []byte {
+	if version == p2pmsg.EnvelopeVersion {
 		b, err := p2pmsg.Marshal(msg, nil)
 		if err != nil {
 			panic(err)
@@ -269,11 +312,30 @@ func Envelope(msg p2pmsg.Message, versionOk bool) []byte {
 	if err != nil {
 		panic(err)
 	}
-	b, err := proto.Marshal(&p2pmsg.Envelope{Version: badVersion, Message: a})
+	b, err := marshalLax(&p2pmsg.Envelope{Version: version, Message: a})
 	if err != nil {
 		panic(err)
 	}
 	return b
+}
+
+// marshalLax marshals without the UTF-8 check of string fields (an attacker's encoder has none).
+func marshalLax(m proto.Message) ([]byte, error) {
+	b, err := proto.MarshalOptions{AllowPartial: true}.Marshal(m)
+	if err != nil { // invalid UTF-8 in the version string: build the envelope by hand
+		e := m.(*p2pmsg.Envelope)
+		inner, err2 := proto.Marshal(e.Message)
+		if err2 != nil {
+			return nil, err2
+		}
+		var out []byte
+		out = protowire.AppendTag(out, 1, protowire.BytesType)
+		out = protowire.AppendBytes(out, []byte(e.Version))
+		out = protowire.AppendTag(out, 2, protowire.BytesType)
+		out = protowire.AppendBytes(out, inner)
+		return out, nil
+	}
+	return b, nil
 }
 
 // Delivery is what arrives at a node: envelope bytes on a pubsub topic, handed to the
@@ -281,6 +343,7 @@ func Envelope(msg p2pmsg.Message, versionOk bool) []byte {
 type Delivery struct {
 	RegTopic string // topic whose registered validator is invoked
 	Topic    string // topic field of the pubsub message
+	NilTopic bool   // the pubsub message has no topic field at all
 	Data     []byte
 }
 
@@ -297,8 +360,12 @@ func (w *World) Deliver(cc *Concrete) Delivery {
 // PubsubMessage wraps the delivery as libp2p hands it to a topic validator.
 func (d Delivery) PubsubMessage() *pubsub.Message {
 	topic := d.Topic
+	tp := &topic
+	if d.NilTopic {
+		tp = nil
+	}
 	return &pubsub.Message{
-		Message:      &pb.Message{From: []byte("verif-origin-peer"), Data: d.Data, Seqno: []byte{0, 0, 0, 0, 0, 0, 0, 1}, Topic: &topic},
+		Message:      &pb.Message{From: []byte("verif-origin-peer"), Data: d.Data, Seqno: []byte{0, 0, 0, 0, 0, 0, 0, 1}, Topic: tp},
 		ReceivedFrom: peer.ID("verif-forwarding-peer"),
 	}
 }
